@@ -2,6 +2,793 @@
 
 package main
 
-import "github.com/theparanoids/ysshra/internal/zzverif/ev"
+import (
+	"bytes"
+	"crypto/rand"
+	"crypto/x509"
+	"encoding/json"
+	"errors"
+	"fmt"
+	"net"
+	"os"
+	"path/filepath"
+	"strings"
+	"time"
 
-func checkC13(c *ev.Ctx) { c.Cap("not implemented") }
+	"golang.org/x/crypto/ssh"
+	"golang.org/x/crypto/ssh/agent"
+
+	"github.com/theparanoids/ysshra/agent/yubiagent"
+	"github.com/theparanoids/ysshra/internal/zzverif/ev"
+	"github.com/theparanoids/ysshra/internal/zzverif/fix"
+	"github.com/theparanoids/ysshra/zzverifrt/vnet"
+)
+
+// served-agent reactor: every request frame is handled by one synchronous yubiagent.ServeAgent call.
+func serveReactor(served yubiagent.YubiAgent, name string) *vnet.Reactor {
+	return &vnet.Reactor{Name: name, Handler: func(frame []byte) vnet.Reply {
+		var out bytes.Buffer
+		err := yubiagent.ServeAgent(served, rw{bytes.NewReader(vnet.Frame(frame)), &out})
+		return vnet.Reply{Raw: out.Bytes(), Close: err != nil}
+	}}
+}
+
+type c13Op struct {
+	Name string
+	Run  func(cl yubiagent.YubiAgent, st *stubAgent) string // "" = ok, else mismatch
+	Slow bool
+}
+
+func errText(err error) string {
+	if err == nil {
+		return "<nil>"
+	}
+	return err.Error()
+}
+
+func sameAdded(sent agent.AddedKey, got *agent.AddedKey) string {
+	if got == nil {
+		return "no Add recorded"
+	}
+	sb, gb := fix.Pub(sent.PrivateKey).Marshal(), fix.Pub(got.PrivateKey).Marshal()
+	if !bytes.Equal(sb, gb) {
+		return "private key differs"
+	}
+	if (sent.Certificate == nil) != (got.Certificate == nil) || (sent.Certificate != nil && !bytes.Equal(sent.Certificate.Marshal(), got.Certificate.Marshal())) {
+		return "certificate differs"
+	}
+	if sent.Comment != got.Comment {
+		return fmt.Sprintf("comment %q became %q", sent.Comment, got.Comment)
+	}
+	if sent.LifetimeSecs != got.LifetimeSecs {
+		return fmt.Sprintf("lifetime %d became %d", sent.LifetimeSecs, got.LifetimeSecs)
+	}
+	if sent.ConfirmBeforeUse != got.ConfirmBeforeUse {
+		return "confirm constraint lost"
+	}
+	return ""
+}
+
+func last(st *stubAgent, op string) (call, string) {
+	if len(st.Calls) == 0 {
+		return call{}, "the served agent received no call"
+	}
+	c := st.Calls[len(st.Calls)-1]
+	if c.Op != op {
+		return c, fmt.Sprintf("the served agent received %s, expected %s", c.Op, op)
+	}
+	return c, ""
+}
+
+func c13StubOps() []c13Op {
+	var ops []c13Op
+	add := func(name string, run func(cl yubiagent.YubiAgent, st *stubAgent) string) {
+		ops = append(ops, c13Op{Name: name, Run: run})
+	}
+	comments := []string{"", "ascii comment", "ü 日本 \t", strings.Repeat("c", 300)}
+	errTexts := []string{"x", "échec ü", strings.Repeat("e", 300), "SUCCESSOR to nothing", "SUCCES"}
+	keys := []struct {
+		n    string
+		priv any
+	}{{"ed25519", fK1}, {"ecdsa", fK2}, {"rsa", fKrsa}}
+	// List
+	for n := 0; n <= 3; n++ {
+		n := n
+		add(fmt.Sprintf("list-%d", n), func(cl yubiagent.YubiAgent, st *stubAgent) string {
+			st.Err, st.Keys = nil, nil
+			pubs := []ssh.PublicKey{fix.Pub(fK1), fix.Pub(fK2), fix.Pub(fKrsa), certH1}
+			for i := 0; i < n; i++ {
+				st.Keys = append(st.Keys, &agent.Key{Format: pubs[(i+n)%4].Type(), Blob: pubs[(i+n)%4].Marshal(), Comment: comments[(i+n)%4]})
+			}
+			got, err := cl.List()
+			if _, m := last(st, "List"); m != "" {
+				return m
+			}
+			if err != nil || len(got) != n {
+				return fmt.Sprintf("List returned %d keys, err=%v; served agent returned %d", len(got), err, n)
+			}
+			for i := range got {
+				if !bytes.Equal(got[i].Blob, st.Keys[i].Blob) || got[i].Comment != st.Keys[i].Comment || got[i].Format != st.Keys[i].Format {
+					return fmt.Sprintf("key %d differs (comment %q vs %q)", i, got[i].Comment, st.Keys[i].Comment)
+				}
+			}
+			return ""
+		})
+	}
+	add("list-error", func(cl yubiagent.YubiAgent, st *stubAgent) string {
+		st.Err = errors.New("scripted")
+		defer func() { st.Err = nil }()
+		if _, err := cl.List(); err == nil {
+			return "a failing List was reported as success"
+		}
+		return ""
+	})
+	// Sign with flags
+	for _, kk := range keys {
+		for _, dl := range []int{0, 1, 64, 65536} {
+			for _, fl := range []agent.SignatureFlags{0, 2, 4, 6} {
+				kk, dl, fl := kk, dl, fl
+				add(fmt.Sprintf("sign-%s-data%d-flags%d", kk.n, dl, fl), func(cl yubiagent.YubiAgent, st *stubAgent) string {
+					data := bytes.Repeat([]byte{0xa7}, dl)
+					st.Err = nil
+					st.Sig, _ = fix.Signer(kk.priv).Sign(rand.Reader, []byte("anything"))
+					sig, err := cl.SignWithFlags(fix.Pub(kk.priv), data, fl)
+					c, m := last(st, "Sign")
+					if m != "" {
+						return m
+					}
+					if !bytes.Equal(c.KeyBlob, fix.Pub(kk.priv).Marshal()) || !bytes.Equal(c.Data, data) || c.Flags != fl {
+						return fmt.Sprintf("served agent received key/data/flags (%d bytes, flags %d), sent (%d bytes, flags %d)", len(c.Data), c.Flags, len(data), fl)
+					}
+					if err != nil || sig == nil || sig.Format != st.Sig.Format || !bytes.Equal(sig.Blob, st.Sig.Blob) {
+						return fmt.Sprintf("signature returned to the caller differs from the served agent's (err=%v)", err)
+					}
+					return ""
+				})
+			}
+		}
+	}
+	add("sign-error", func(cl yubiagent.YubiAgent, st *stubAgent) string {
+		st.Err, st.Sig = errors.New("scripted"), nil
+		defer func() { st.Err = nil }()
+		if _, err := cl.Sign(fix.Pub(fK1), []byte("d")); err == nil {
+			return "a failing Sign was reported as success"
+		}
+		return ""
+	})
+	// Add with constraints
+	for _, kk := range keys {
+		for _, withCert := range []bool{false, true} {
+			for _, life := range []uint32{0, 1, 1<<32 - 1} {
+				for _, conf := range []bool{false, true} {
+					kk, withCert, life, conf := kk, withCert, life, conf
+					add(fmt.Sprintf("add-%s-cert%v-life%d-confirm%v", kk.n, withCert, life, conf), func(cl yubiagent.YubiAgent, st *stubAgent) string {
+						st.Err = nil
+						k := agent.AddedKey{PrivateKey: kk.priv, Comment: comments[int(life%4)], LifetimeSecs: life, ConfirmBeforeUse: conf}
+						if withCert {
+							k.Certificate = fix.SSHCert(fix.Pub(kk.priv), "id", 0, 1<<40, nil, "alice")
+						}
+						err := cl.Add(k)
+						c, m := last(st, "Add")
+						if m != "" {
+							return m
+						}
+						if d := sameAdded(k, c.Added); d != "" {
+							return "Add: " + d
+						}
+						if err != nil {
+							return "Add returned " + err.Error()
+						}
+						return ""
+					})
+				}
+			}
+		}
+	}
+	for _, name := range []string{"Remove", "RemoveAll", "Lock", "Unlock", "Add"} {
+		name := name
+		add("error-"+name, func(cl yubiagent.YubiAgent, st *stubAgent) string {
+			st.Err = errors.New("scripted failure")
+			defer func() { st.Err = nil }()
+			var err error
+			switch name {
+			case "Remove":
+				err = cl.Remove(fix.Pub(fK1))
+			case "RemoveAll":
+				err = cl.RemoveAll()
+			case "Lock":
+				err = cl.Lock([]byte("p"))
+			case "Unlock":
+				err = cl.Unlock([]byte("p"))
+			case "Add":
+				err = cl.Add(agent.AddedKey{PrivateKey: fK1})
+			}
+			if _, m := last(st, name); m != "" {
+				return m
+			}
+			if err == nil {
+				return "a failing " + name + " was reported as success"
+			}
+			return ""
+		})
+	}
+	for _, kk := range keys {
+		kk := kk
+		add("remove-"+kk.n, func(cl yubiagent.YubiAgent, st *stubAgent) string {
+			st.Err = nil
+			err := cl.Remove(fix.Pub(kk.priv))
+			c, m := last(st, "Remove")
+			if m != "" {
+				return m
+			}
+			if !bytes.Equal(c.KeyBlob, fix.Pub(kk.priv).Marshal()) || err != nil {
+				return fmt.Sprintf("Remove: key differs or err=%v", err)
+			}
+			return ""
+		})
+	}
+	add("remove-cert", func(cl yubiagent.YubiAgent, st *stubAgent) string {
+		st.Err = nil
+		err := cl.Remove(certH1)
+		c, m := last(st, "Remove")
+		if m != "" {
+			return m
+		}
+		if !bytes.Equal(c.KeyBlob, certH1.Marshal()) || err != nil {
+			return fmt.Sprintf("Remove(cert): blob differs or err=%v", err)
+		}
+		return ""
+	})
+	add("remove-all", func(cl yubiagent.YubiAgent, st *stubAgent) string {
+		st.Err = nil
+		err := cl.RemoveAll()
+		if _, m := last(st, "RemoveAll"); m != "" {
+			return m
+		}
+		if err != nil {
+			return err.Error()
+		}
+		return ""
+	})
+	for _, pass := range [][]byte{{}, []byte("p"), {0, 0, 1}, bytes.Repeat([]byte("w"), 300), []byte("pä ß")} {
+		for _, op := range []string{"Lock", "Unlock"} {
+			pass, op := pass, op
+			add(fmt.Sprintf("%s-pass%d", op, len(pass)), func(cl yubiagent.YubiAgent, st *stubAgent) string {
+				st.Err = nil
+				var err error
+				if op == "Lock" {
+					err = cl.Lock(pass)
+				} else {
+					err = cl.Unlock(pass)
+				}
+				c, m := last(st, op)
+				if m != "" {
+					return m
+				}
+				if !bytes.Equal(c.Pass, pass) || err != nil {
+					return fmt.Sprintf("%s: passphrase differs (%q vs %q) or err=%v", op, c.Pass, pass, err)
+				}
+				return ""
+			})
+		}
+	}
+	add("signers", func(cl yubiagent.YubiAgent, st *stubAgent) string {
+		st.Err = nil
+		st.Keys = []*agent.Key{{Format: fix.Pub(fK1).Type(), Blob: fix.Pub(fK1).Marshal(), Comment: "a"}, {Format: certH1.Type(), Blob: certH1.Marshal(), Comment: "b"}}
+		ss, err := cl.Signers()
+		if err != nil || len(ss) != 2 || !bytes.Equal(ss[0].PublicKey().Marshal(), st.Keys[0].Blob) || !bytes.Equal(ss[1].PublicKey().Marshal(), st.Keys[1].Blob) {
+			return fmt.Sprintf("Signers returned %d signers, err=%v", len(ss), err)
+		}
+		return ""
+	})
+	// add-hardware-certificate, client encoding and legacy encoding, success and error texts
+	for _, cm := range comments {
+		cm := cm
+		add(fmt.Sprintf("hardcert-comment%d", len(cm)), func(cl yubiagent.YubiAgent, st *stubAgent) string {
+			st.Err = nil
+			err := cl.AddHardCert(certH1, cm)
+			c, m := last(st, "AddHardCert")
+			if m != "" {
+				return m
+			}
+			if !bytes.Equal(c.KeyBlob, certH1.Marshal()) || c.Comment != cm || err != nil {
+				return fmt.Sprintf("AddHardCert: received comment %q (sent %q), blob equal=%v, err=%v", c.Comment, cm, bytes.Equal(c.KeyBlob, certH1.Marshal()), err)
+			}
+			return ""
+		})
+	}
+	add("hardcert-legacy-encoding", func(cl yubiagent.YubiAgent, st *stubAgent) string {
+		st.Err = nil
+		resp, err := cl.Forward(append([]byte{31}, certH1.Marshal()...))
+		c, m := last(st, "AddHardCert")
+		if m != "" {
+			return m
+		}
+		if !bytes.Equal(c.KeyBlob, certH1.Marshal()) || c.Comment != "" || err != nil || string(resp) != "SUCCESS" {
+			return fmt.Sprintf("legacy AddHardCert: blob equal=%v comment=%q resp=%q err=%v", bytes.Equal(c.KeyBlob, certH1.Marshal()), c.Comment, resp, err)
+		}
+		return ""
+	})
+	for _, et := range errTexts {
+		et := et
+		add(fmt.Sprintf("hardcert-error-%.8s", et), func(cl yubiagent.YubiAgent, st *stubAgent) string {
+			st.Err = errors.New(et)
+			defer func() { st.Err = nil }()
+			err := cl.AddHardCert(certH1, "c")
+			if err == nil {
+				return fmt.Sprintf("served AddHardCert failed with %q but the caller saw success", et)
+			}
+			if err.Error() != et {
+				return fmt.Sprintf("error text %q became %q", et, err.Error())
+			}
+			return ""
+		})
+		add(fmt.Sprintf("wait-error-%.8s", et), func(cl yubiagent.YubiAgent, st *stubAgent) string {
+			st.Err = errors.New(et)
+			defer func() { st.Err = nil }()
+			err := cl.Wait(40)
+			if err == nil || err.Error() != et {
+				return fmt.Sprintf("served Wait failed with %q, caller saw %v", et, err)
+			}
+			return ""
+		})
+		add(fmt.Sprintf("listslots-error-%.8s", et), func(cl yubiagent.YubiAgent, st *stubAgent) string {
+			st.Err, st.Slots = errors.New(et), nil
+			defer func() { st.Err = nil }()
+			_, err := cl.ListSlots()
+			if err == nil || err.Error() != et {
+				return fmt.Sprintf("served ListSlots failed with %q, caller saw %v", et, err)
+			}
+			return ""
+		})
+		add(fmt.Sprintf("readslot-error-%.8s", et), func(cl yubiagent.YubiAgent, st *stubAgent) string {
+			st.Err, st.Cert = errors.New(et), nil
+			defer func() { st.Err = nil }()
+			_, err := cl.ReadSlot("9a")
+			if err == nil || err.Error() != et {
+				return fmt.Sprintf("served ReadSlot failed with %q, caller saw %v", et, err)
+			}
+			return ""
+		})
+	}
+	for _, code := range []byte{0, 5, 11, 39, 40, 255} {
+		code := code
+		add(fmt.Sprintf("wait-%d", code), func(cl yubiagent.YubiAgent, st *stubAgent) string {
+			st.Err = nil
+			err := cl.Wait(code)
+			c, m := last(st, "Wait")
+			if m != "" {
+				return m
+			}
+			if c.Code != code || err != nil {
+				return fmt.Sprintf("Wait: served agent received code %d (sent %d), err=%v", c.Code, code, err)
+			}
+			return ""
+		})
+	}
+	// slots against the recording agent
+	for _, sl := range [][]string{nil, {"9a"}, {"9a", "9c", "f9"}, {"", "ü"}} {
+		sl := sl
+		add(fmt.Sprintf("listslots-%d", len(sl)), func(cl yubiagent.YubiAgent, st *stubAgent) string {
+			st.Err, st.Slots = nil, sl
+			got, err := cl.ListSlots()
+			if _, m := last(st, "ListSlots"); m != "" {
+				return m
+			}
+			if err != nil || fmt.Sprint(got) != fmt.Sprint(sl) || len(got) != len(sl) {
+				return fmt.Sprintf("ListSlots returned %q, err=%v; served %q", got, err, sl)
+			}
+			return ""
+		})
+	}
+	x5 := c13Certs()
+	for i, crt := range x5 {
+		for _, slot := range []string{"9a", "", strings.Repeat("s", 64), "ü", " 9a ", "9a\n"} {
+			for _, op := range []string{"ReadSlot", "AttestSlot"} {
+				i, crt, slot, op := i, crt, slot, op
+				add(fmt.Sprintf("%s-cert%d-slot%q", op, i, slot[:min(len(slot), 3)]), func(cl yubiagent.YubiAgent, st *stubAgent) string {
+					st.Err, st.Cert = nil, crt
+					var got *x509.Certificate
+					var err error
+					if op == "ReadSlot" {
+						got, err = cl.ReadSlot(slot)
+					} else {
+						got, err = cl.AttestSlot(slot)
+					}
+					c, m := last(st, op)
+					if m != "" {
+						return m
+					}
+					if c.Slot != slot {
+						return fmt.Sprintf("%s: served agent received slot %q, sent %q", op, c.Slot, slot)
+					}
+					if err != nil || got == nil || !bytes.Equal(got.Raw, crt.Raw) {
+						return fmt.Sprintf("%s: certificate differs, err=%v", op, err)
+					}
+					return ""
+				})
+			}
+		}
+	}
+	// raw forward and extension (both reach the served agent as Forward)
+	for _, body := range [][]byte{{0xc9}, append([]byte{0xca}, bytes.Repeat([]byte{3}, 65536)...), {20, 0, 0, 0, 1, 'r', 0, 0, 0, 0}} {
+		for _, resp := range [][]byte{{6}, {5}, bytes.Repeat([]byte{9}, 70000), {}} {
+			body, resp := body, resp
+			add(fmt.Sprintf("forward-%d-len%d-resp%d", body[0], len(body), len(resp)), func(cl yubiagent.YubiAgent, st *stubAgent) string {
+				st.Err, st.RawResp = nil, resp
+				got, err := cl.Forward(body)
+				c, m := last(st, "Forward")
+				if m != "" {
+					return m
+				}
+				if !bytes.Equal(c.Raw, body) {
+					return fmt.Sprintf("Forward: served agent received %d bytes, sent %d", len(c.Raw), len(body))
+				}
+				if err != nil || !bytes.Equal(got, resp) {
+					return fmt.Sprintf("Forward: caller received %d bytes (err=%v), served agent answered %d", len(got), err, len(resp))
+				}
+				return ""
+			})
+		}
+	}
+	add("extension-payload", func(cl yubiagent.YubiAgent, st *stubAgent) string {
+		st.Err, st.RawResp = nil, []byte{0xee, 1, 2, 3}
+		got, err := cl.Extension("x@y", []byte("contents"))
+		c, m := last(st, "Forward")
+		if m != "" {
+			return m
+		}
+		want := cat([]byte{27}, str([]byte("x@y")), []byte("contents"))
+		if !bytes.Equal(c.Raw, want) || err != nil || !bytes.Equal(got, st.RawResp) {
+			return fmt.Sprintf("Extension: request/response altered (err=%v)", err)
+		}
+		return ""
+	})
+	add("extension-unsupported", func(cl yubiagent.YubiAgent, st *stubAgent) string {
+		st.Err, st.RawResp = nil, []byte{5}
+		_, err := cl.Extension("x@y", nil)
+		if !errors.Is(err, agent.ErrExtensionUnsupported) {
+			return fmt.Sprintf("Extension answered with failure: caller saw %v", err)
+		}
+		return ""
+	})
+	add("smartcard-add", func(cl yubiagent.YubiAgent, st *stubAgent) string {
+		st.Err, st.RawResp = nil, []byte{6}
+		err := cl.AddSmartcardKey("reader", []byte("1234"), 90*time.Second, true)
+		c, m := last(st, "Forward")
+		if m != "" {
+			return m
+		}
+		want := cat([]byte{26}, str([]byte("reader")), str([]byte("1234")), []byte{1, 0, 0, 0, 90, 2})
+		if !bytes.Equal(c.Raw, want) || err != nil {
+			return fmt.Sprintf("AddSmartcardKey: request %x, want %x, err=%v", c.Raw, want, err)
+		}
+		st.RawResp = []byte{5}
+		if err := cl.AddSmartcardKey("reader", []byte("1234"), 0, false); err == nil {
+			return "AddSmartcardKey: agent failure reported as success"
+		}
+		return ""
+	})
+	add("smartcard-remove", func(cl yubiagent.YubiAgent, st *stubAgent) string {
+		st.Err, st.RawResp = nil, []byte{6}
+		err := cl.RemoveSmartcardKey("reader", []byte("1234"))
+		c, m := last(st, "Forward")
+		if m != "" {
+			return m
+		}
+		want := cat([]byte{21}, str([]byte("reader")), str([]byte("1234")))
+		if !bytes.Equal(c.Raw, want) || err != nil {
+			return fmt.Sprintf("RemoveSmartcardKey: request altered or err=%v", err)
+		}
+		return ""
+	})
+	return ops
+}
+
+var c13CertCache []*x509.Certificate
+
+func c13Certs() []*x509.Certificate {
+	if c13CertCache != nil {
+		return c13CertCache
+	}
+	defer func() { c13CertCache = c13MakeCerts() }()
+	return c13MakeCerts0()
+}
+
+func c13MakeCerts0() []*x509.Certificate { c13CertCache = c13MakeCerts(); return c13CertCache }
+
+func c13MakeCerts() []*x509.Certificate {
+	if c13CertCache != nil {
+		return c13CertCache
+	}
+	now := time.Now()
+	var out []*x509.Certificate
+	t := fix.X509Template("slot 9a", 5, now.Add(-time.Hour), now.Add(time.Hour), false)
+	out = append(out, fix.X509Issue(t, t, fix.EC(256).Public(), fix.EC(256)))
+	t2 := fix.X509Template("slot big", 6, now.Add(-time.Hour), now.Add(time.Hour), false)
+	for i := 0; i < 40; i++ {
+		t2.DNSNames = append(t2.DNSNames, fmt.Sprintf("very-long-name-%d.example.org", i))
+	}
+	out = append(out, fix.X509Issue(t2, t2, fix.RSA(4096).Public(), fix.RSA(4096)))
+	return out
+}
+
+// ---- real server with a fake PIV tool ----
+
+type pivEnv struct {
+	dir     string
+	outFile string
+	argFile string
+	stFile  string
+}
+
+func newPivEnv() *pivEnv {
+	d, err := os.MkdirTemp("", "verif-piv-")
+	if err != nil {
+		panic(err)
+	}
+	p := &pivEnv{dir: d, outFile: filepath.Join(d, "out"), argFile: filepath.Join(d, "args"), stFile: filepath.Join(d, "status")}
+	script := "#!/bin/sh\necho \"$@\" > '" + p.argFile + "'\ncat '" + p.outFile + "'\nexit $(cat '" + p.stFile + "')\n"
+	os.WriteFile(filepath.Join(d, "yubico-piv-tool"), []byte(script), 0o755)
+	os.Setenv("PATH", d+":"+os.Getenv("PATH"))
+	return p
+}
+
+func (p *pivEnv) set(out []byte, status int) {
+	os.WriteFile(p.outFile, out, 0o644)
+	os.WriteFile(p.stFile, []byte(fmt.Sprint(status)), 0o644)
+	os.Remove(p.argFile)
+}
+
+func (p *pivEnv) args() string {
+	b, _ := os.ReadFile(p.argFile)
+	return strings.TrimSpace(string(b))
+}
+
+// refSlots: strict = lines beginning with "Slot " having the two characters; lenient = every line beginning with "Slot" of >= 7 bytes.
+func refSlots(output string) (strict, lenient []string) {
+	for _, line := range strings.Split(output, "\n") {
+		if len(line) >= 7 && strings.HasPrefix(line, "Slot") {
+			lenient = append(lenient, line[5:7])
+			if line[4] == ' ' {
+				strict = append(strict, line[5:7])
+			}
+		}
+	}
+	return
+}
+
+func isSubseq(a, b []string) bool { // a is a subsequence of b
+	i := 0
+	for _, x := range b {
+		if i < len(a) && a[i] == x {
+			i++
+		}
+	}
+	return i == len(a)
+}
+
+type c13Case struct {
+	Ops       []string `json:",omitempty"`
+	PivOutput string   `json:",omitempty"`
+	PivStatus int      `json:",omitempty"`
+	PivOp     string   `json:",omitempty"`
+	Remote    bool     `json:",omitempty"`
+	PivExpect string   `json:",omitempty"` // read/attest: cert0 | cert1 | error | either
+}
+
+func c13RunOps(c *ev.Ctx, ops map[string]c13Op, names []string) {
+	c.Eval()
+	k := c13Case{Ops: names}
+	st := &stubAgent{}
+	addr := fmt.Sprintf("/verif/yubi-served-%d", worldSeq.Add(1))
+	vnet.Register(addr, func() (net.Conn, error) { return serveReactor(st, addr), nil })
+	defer vnet.Unregister(addr)
+	cl, err := yubiagent.NewClient(addr)
+	if err != nil {
+		c.Violation("C13:harness:newclient", err.Error(), k)
+		return
+	}
+	for i, n := range names {
+		op := ops[n]
+		var msg string
+		if p := ev.Guard(func() { msg = op.Run(cl, st) }); p != "" {
+			c.Violation("C13:crash:"+ev.PanicSite(p), fmt.Sprintf("operation %s (position %d of %v) crashed:\n%s", n, i, names, p), k)
+			return
+		}
+		c.Outcome(strings.SplitN(n, "-", 2)[0] + "/" + fmt.Sprint(msg == ""))
+		if msg != "" {
+			pos := "alone"
+			if len(names) > 1 {
+				pos = fmt.Sprintf("position %d after %s", i, names[0])
+				if i == 0 {
+					pos = "first of a pair"
+				}
+			}
+			c.Violation("C13:mismatch:"+opClass(n), fmt.Sprintf("%s (%s): %s", n, pos, msg), k)
+			return
+		}
+	}
+	c.Nontrivial(strings.Join(names, ">"))
+}
+
+func opClass(n string) string {
+	p := strings.Split(n, "-")
+	if len(p) >= 2 && (p[0] == "error" || p[0] == "hardcert" || p[0] == "wait" || p[0] == "listslots" || p[0] == "readslot") && len(p) > 1 {
+		return p[0] + "-" + p[1]
+	}
+	return p[0]
+}
+
+func c13Piv(c *ev.Ctx, piv *pivEnv, k c13Case) {
+	c.Eval()
+	w, err := newYWorld(k.Remote)
+	if err != nil {
+		c.Violation("C13:harness:newserver", err.Error(), k)
+		return
+	}
+	defer vnet.Unregister(w.addr)
+	addr := fmt.Sprintf("/verif/yubi-served-%d", worldSeq.Add(1))
+	vnet.Register(addr, func() (net.Conn, error) { return serveReactor(w.srv, addr), nil })
+	defer vnet.Unregister(addr)
+	cl, err := yubiagent.NewClient(addr)
+	if err != nil {
+		c.Violation("C13:harness:newclient", err.Error(), k)
+		return
+	}
+	piv.set([]byte(k.PivOutput), k.PivStatus)
+	var slots []string
+	var cert *x509.Certificate
+	var oerr error
+	if p := ev.Guard(func() {
+		switch k.PivOp {
+		case "ListSlots":
+			slots, oerr = cl.ListSlots()
+		case "ReadSlot":
+			cert, oerr = cl.ReadSlot("9c")
+		case "AttestSlot":
+			cert, oerr = cl.AttestSlot("9c")
+		}
+	}); p != "" {
+		c.Violation("C13:crash:"+ev.PanicSite(p), fmt.Sprintf("%s crashed on PIV tool output %q:\n%s", k.PivOp, clip(k.PivOutput), p), k)
+		return
+	}
+	c.Outcome(fmt.Sprintf("piv/%s/remote=%v/status=%d/%s", k.PivOp, k.Remote, k.PivStatus, errClassY(oerr)))
+	c.Nontrivial(ev.JSON(k)[:min(200, len(ev.JSON(k)))])
+	if k.Remote {
+		if oerr == nil {
+			c.Violation("C13:remote-mode-serves-slot-operation:"+k.PivOp, k.PivOp+" succeeded on a remote-mode server", k)
+		}
+		if piv.args() != "" {
+			c.Violation("C13:remote-mode-runs-piv-tool", "a remote-mode server ran the PIV tool: "+piv.args(), k)
+		}
+		return
+	}
+	if k.PivStatus != 0 {
+		if oerr == nil {
+			c.Violation("C13:piv-failure-reported-as-success:"+k.PivOp, "the PIV tool exited with a non-zero status but the caller saw success", k)
+		}
+		return
+	}
+	switch k.PivOp {
+	case "ListSlots":
+		strict, lenient := refSlots(k.PivOutput)
+		if oerr != nil {
+			c.Violation("C13:listslots-fails", fmt.Sprintf("ListSlots failed on output %q: %v", clip(k.PivOutput), oerr), k)
+			return
+		}
+		if !isSubseq(strict, slots) || !isSubseq(slots, lenient) {
+			c.Violation("C13:listslots-wrong", fmt.Sprintf("ListSlots = %q for output %q; must contain %q in order and nothing outside %q", slots, clip(k.PivOutput), strict, lenient), k)
+		}
+		if !strings.Contains(piv.args(), "status") {
+			c.Violation("C13:piv-wrong-action", "ListSlots ran the PIV tool with: "+piv.args(), k)
+		}
+	default:
+		want := map[string]string{"ReadSlot": "read-certificate", "AttestSlot": "attest"}[k.PivOp]
+		if a := piv.args(); !strings.Contains(a, want) || !strings.Contains(a, "-s 9c") {
+			c.Violation("C13:piv-wrong-action:"+k.PivOp, fmt.Sprintf("%s ran the PIV tool with %q, expected action %q on slot 9c", k.PivOp, a, want), k)
+		}
+		certs := c13Certs()
+		switch k.PivExpect {
+		case "cert0", "cert1":
+			want := certs[0]
+			if k.PivExpect == "cert1" {
+				want = certs[1]
+			}
+			if oerr != nil || cert == nil {
+				c.Violation("C13:slot-certificate-lost:"+k.PivOp, fmt.Sprintf("%s failed on well-formed PEM output: %v", k.PivOp, oerr), k)
+			} else if !bytes.Equal(cert.Raw, want.Raw) {
+				c.Violation("C13:slot-certificate-altered:"+k.PivOp, "the certificate returned to the caller is not the one the tool printed", k)
+			}
+		case "error":
+			if oerr == nil {
+				c.Violation("C13:slot-garbage-accepted:"+k.PivOp, fmt.Sprintf("%s succeeded on output %q", k.PivOp, clip(k.PivOutput)), k)
+			}
+		}
+	}
+}
+
+func clip(s string) string {
+	if len(s) > 80 {
+		return s[:80] + "…"
+	}
+	return s
+}
+
+func errClassY(err error) string {
+	if err == nil {
+		return "ok"
+	}
+	return "err"
+}
+
+func checkC13(c *ev.Ctx) {
+	c.Rule("yubiagent.NewClient through the dial seam; the peer runs the real ServeAgent synchronously per request over (i) a recording YubiAgent with scripted results and (ii) the real server with a fake yubico-piv-tool. Every operation alone: List (0..3 keys, comments '', ascii, UTF-8, 300 bytes), SignWithFlags (3 key types x data {0,1,64,65536} x flags {0,2,4,6}), Add (3 key types x cert x lifetime {0,1,2^32-1} x confirm), Remove, RemoveAll, Lock/Unlock (5 passphrases), Signers, AddHardCert (client and legacy encoding, 4 comments), Wait (6 codes), slot operations (slot names, 2 certificate sizes), raw Forward (3 bodies x 4 replies up to 70 KB), Extension, smart-card requests, scripted failures with 5 error texts; every ordered pair over a 30-operation generating set; PIV tool outputs (well-formed status, 'Slot' alone, 'Slot 9' (6 chars), 'Slot 9a' (7), 'Slot9a:', CRLF, empty, 1 MiB, exit status 1, PEM/garbage for read/attest) in local and remote mode. non-trivial = operation sequence whose arguments and results were compared; distinct by sequence")
+	c.Assume("error texts exactly 'SUCCESS' / '' and extension payloads that are empty or start with byte 5/28 are in-band protocol artefacts, excluded from the alphabet", "private keys are compared through their public keys")
+	ops := map[string]c13Op{}
+	list := c13StubOps()
+	for _, o := range list {
+		ops[o.Name] = o
+	}
+	piv := newPivEnv()
+	defer os.RemoveAll(piv.dir)
+	if c.ReplayCase != nil {
+		var k c13Case
+		json.Unmarshal(c.ReplayCase, &k)
+		if k.PivOp != "" {
+			c13Piv(c, piv, k)
+		} else {
+			c13RunOps(c, ops, k.Ops)
+		}
+		return
+	}
+	for i, o := range list {
+		c13RunOps(c, ops, []string{o.Name})
+		if i%37 == 0 {
+			c.Sample(c13Case{Ops: []string{o.Name}})
+		}
+	}
+	c.Set("operations_alone", len(list))
+	gen := []string{"list-2", "list-error", "sign-ed25519-data64-flags0", "sign-rsa-data65536-flags2", "sign-error", "add-ed25519-certfalse-life1-confirmfalse", "add-rsa-certtrue-life4294967295-confirmtrue",
+		"error-Add", "remove-ecdsa", "error-Remove", "remove-all", "Lock-pass1", "Unlock-pass300", "error-Unlock", "signers", "hardcert-comment13", "hardcert-legacy-encoding", "hardcert-error-x",
+		"hardcert-error-SUCCESSO", "wait-40", fmt.Sprintf("wait-error-%.8s", "échec ü"), "listslots-3", "listslots-error-x", "ReadSlot-cert0-slot\"9a\"", "AttestSlot-cert1-slot\"\"", "readslot-error-x",
+		"forward-201-len1-resp1", "forward-202-len65537-resp70000", "extension-payload", "extension-unsupported", "smartcard-add"}
+	var genOK []string
+	for _, g := range gen {
+		if _, ok := ops[g]; ok {
+			genOK = append(genOK, g)
+		} else {
+			c.Violation("C13:harness:unknown-op", g, nil)
+		}
+	}
+	c.Set("generating_set", len(genOK))
+	for _, a := range genOK {
+		for _, b := range genOK {
+			c13RunOps(c, ops, []string{a, b})
+		}
+	}
+	c.Sample(c13Case{Ops: []string{"sign-error", "list-2"}})
+	// PIV tool outputs
+	wellFormed := "Version:\t5.2.7\nSerial Number:\t12345678\nCHUID:\tNo data available\nCCC:\tNo data available\nSlot 9a:\t\n\tAlgorithm:\tRSA2048\n\tSubject DN:\tCN=x\nSlot 9c:\t\n\tAlgorithm:\tECCP256\nSlot f9:\t\n\tAlgorithm:\tRSA2048\nPIN tries left:\t3\n"
+	outs := []string{wellFormed, "Slot 9a:\n", "", "Slot", "Slot ", "Slot 9", "Slot 9a", "Slot9a:", "Slot 9a:\r\nSlot 9c:\r\n", "Slot 9\nSlot 9a:\nSlot\n", "no slots here\n", "Slot 9a:", "\nSlot 9d:\n\n",
+		"slot 9a:\n", " Slot 9a:\n", strings.Repeat("Slot 82:\n\tAlgorithm:\tRSA2048\n", 40000), strings.Repeat("x", 1<<20), "Slo\nSlot\nSlot \nSlot 9\nSlot 9a\n"}
+	for _, o := range outs {
+		for _, remote := range []bool{false, true} {
+			c13Piv(c, piv, c13Case{PivOp: "ListSlots", PivOutput: o, Remote: remote})
+		}
+		c13Piv(c, piv, c13Case{PivOp: "ListSlots", PivOutput: o, PivStatus: 1})
+	}
+	c.Sample(c13Case{PivOp: "ListSlots", PivOutput: "Slot 9"})
+	certs := c13Certs()
+	pem0, pem1 := string(fix.PEMCert(certs[0].Raw)), string(fix.PEMCert(certs[1].Raw))
+	pems := [][2]string{{pem0, "cert0"}, {pem1, "cert1"}, {pem0 + "\n \n", "cert0"}, {"junk before\n" + pem0, "cert0"}, {pem0 + pem1, "cert0"},
+		{pem0 + "trailing garbage", "error"}, {"", "error"}, {"not pem", "error"}, {"-----BEGIN CERTIFICATE-----\nAAAA\n-----END CERTIFICATE-----\n", "error"}, {pem0[:200], "error"}}
+	for _, o := range pems {
+		for _, op := range []string{"ReadSlot", "AttestSlot"} {
+			for _, remote := range []bool{false, true} {
+				c13Piv(c, piv, c13Case{PivOp: op, PivOutput: o[0], Remote: remote, PivExpect: o[1]})
+			}
+			c13Piv(c, piv, c13Case{PivOp: op, PivOutput: o[0], PivStatus: 1, PivExpect: o[1]})
+		}
+	}
+}
